@@ -102,6 +102,9 @@ def run(chk):
         if not (isinstance(e, ast.BinOp) and isinstance(e.op, ast.Div)):
             chk.bad("C03.R3", site, qn, "scale is a quotient", f"{qn} returns `{U(e)[:70]}`, not range / qmax", "any tensor")
             continue
+        if scales.alternative_route(p, e.left):
+            chk.unknown("C03.R2", site, f"{qn}: the range `{U(e.left)[:50]}` comes from an alternative route on the path [{' & '.join(p.cond_texts())[:60]}]: not followed")
+            continue
         r = scales.reduction(e.left)
         if r is None:
             chk.unknown("C03.R2", site, f"{qn}: numerator `{U(e.left)[:60]}` is not a max/amax reduction")
@@ -182,6 +185,9 @@ def run(chk):
             chk.bad("C03.R3", site, "absmax_scale", "scale has a lower bound", f"absmax_scale: the scale is floored ({floors}): for a tensor whose absmax is below qmax x floor the scale is larger than absmax/qmax", "activations (or a row) of very small magnitude, e.g. absmax < 1.5e-5 in float32 with an eps floor: the codes use a fraction of the range")
         if not (isinstance(e, ast.BinOp) and isinstance(e.op, ast.Div)):
             chk.bad("C03.R3", site, "absmax_scale", "scale is a quotient", f"absmax_scale returns `{U(e)[:70]}`, not range / qmax", "any tensor")
+            continue
+        if scales.alternative_route(p, e.left):
+            chk.unknown("C03.R1", site, f"absmax_scale: the range `{U(e.left)[:50]}` comes from an alternative route on the path [{' & '.join(p.cond_texts())[:60]}]: not followed")
             continue
         r = scales.reduction(e.left)
         f = path_facts(p)
@@ -325,8 +331,15 @@ def _dtype_conversions(repo, mod, e, depth=0, seen=None):
     from ..core import paths_of as _paths
     seen = set() if seen is None else seen
     out = []
+    # a conversion that sits inside an operand which is itself cast (back) to the dtype of a tensor - `codes.to(torch.int16).abs().amax().to(scale.dtype)` -
+    # does not decide the dtype of the value: only conversions outside every such cast count
+    shielded = set()
     for nd in ast.walk(e):
-        if not isinstance(nd, ast.Call):
+        if isinstance(nd, ast.Call) and isinstance(nd.func, ast.Attribute) and nd.func.attr in ("to", "type") and len(nd.args) == 1 and U(nd.args[0]).endswith(".dtype") and not U(nd.args[0]).startswith("torch."):
+            for x in ast.walk(nd.func.value):
+                shielded.add(id(x))
+    for nd in ast.walk(e):
+        if not isinstance(nd, ast.Call) or id(nd) in shielded:
             continue
         f = nd.func
         if isinstance(f, ast.Attribute) and f.attr in _FIXED_DTYPE_METHODS and not nd.args:
